@@ -42,6 +42,9 @@ def instances(tier):
 
     for n in range(1, (9 if q else 10) + 1):
         add(name="queens-%d" % n, family="queens", make=lambda n=n: QueensProblem(n), validator=S.v_queens(n),
+            prefix_images=S.prefix_images_queens(n), images_apply_to_model=True,
+            prefix_valid=lambda im, n=n: (sorted(im) == list(range(n)) and len(set(im[i] + i for i in range(n))) == n
+                                          and len(set(im[i] - i for i in range(n))) == n),
             count=S.QUEENS[n - 1], split=(4, 0) if n in (6, 8) else None)
     from nucs.problems.latin_square_problem import LatinSquareProblem, LatinSquareRCProblem
 
@@ -58,6 +61,7 @@ def instances(tier):
         add(name="qg5-%d" % n, family="quasigroup", make=lambda n=n: Quasigroup5Problem(n, True),
             make_nosym=(lambda n=n: Quasigroup5Problem(n, False)) if n <= 7 else None,
             validator=S.v_latin_rc(n, qg5=True, idempotent=True), count=qg_lit.get(n),
+            images=S.images_quasigroup_rc(n),
             cfgs=[dict(var_heuristic_idx=H.VAR_HEURISTIC_SMALLEST_DOMAIN)] + (generic[:2] if n <= 7 else []))
     from nucs.examples.magic_square.magic_square_problem import MagicSquareProblem
 
@@ -65,6 +69,7 @@ def instances(tier):
         add(name="magic_square-%d" % n, family="magic_square", make=lambda n=n: MagicSquareProblem(n, True),
             make_nosym=(lambda n=n: MagicSquareProblem(n, False)) if n <= 3 else None,
             validator=S.v_magic_square(n), count={2: 0, 3: 1, 4: 880}[n], count_nosym={2: 0, 3: 8}.get(n),
+            images=S.images_magic_square(n),
             cfgs=[dict(var_heuristic_idx=H.VAR_HEURISTIC_SMALLEST_DOMAIN, dom_heuristic_idx=H.DOM_HEURISTIC_MAX_VALUE)]
             + (generic[:2] if n <= 3 else []))
     from nucs.examples.magic_sequence.magic_sequence_problem import MagicSequenceProblem
@@ -97,12 +102,15 @@ def instances(tier):
     for prm, cnt in ([((6, 10, 5, 3, 2), 1), ((7, 7, 3, 3, 1), 1)] + ([] if q else [((8, 14, 7, 4, 3), 92)])):
         add(name="bibd-%s" % (prm,), family="bibd", make=lambda prm=prm: BIBDProblem(*prm), validator=S.v_bibd(*prm),
             count=cnt, make_nosym=lambda prm=prm: BIBDProblem(*prm, symmetry_breaking=False), nosym_limit=30,
+            prefix_images=S.prefix_images_bibd(prm[0], prm[1]),
+            prefix_valid=lambda im, prm=prm: S.v_bibd(*prm)(im) is None,
             cfgs=generic[:2] if prm[0] < 8 else generic[:1])
     from nucs.examples.schur_lemma.schur_lemma_problem import SchurLemmaProblem
 
     for n in (list(range(3, 11)) + [13, 14] if q else range(3, 17)):
         add(name="schur-%d" % n, family="schur", make=lambda n=n: SchurLemmaProblem(n, True),
             make_nosym=lambda n=n: SchurLemmaProblem(n, False), validator=S.v_schur(n),
+            prefix_images=S.prefix_images_schur(n),
             count_nosym="schur" if n <= (11 if q else 14) else (0 if n >= 14 else None),
             cfgs=generic[:2] if n <= 9 else generic[:1])
     from nucs.examples.sports_tournament_scheduling.sports_tournament_scheduling_problem import \
@@ -317,6 +325,26 @@ def run_shipped(task):
                 if lim is None and not full[0] <= set(nos):
                     fail("symmetry_breaking_invents_solutions", "%s: a solution of the symmetric model is not a "
                                                                 "solution of the plain one" % inst["name"], inst, 0)
+            if inst.get("images") and full and lim is None:
+                # the plain model must deliver *every* valid object: each symmetric image of a delivered solution that the
+                # definition-level validator accepts has to be among its solutions
+                have = set(nos)
+                checked = 0
+                for sol in sorted(set(full[0]) | set(nos[:3])):
+                    for im in inst["images"](sol):
+                        if len(im) != len(sol) or validator(im):
+                            continue
+                        checked += 1
+                        if im not in have:
+                            fail("valid_object_missing_without_symmetry_breaking",
+                                 "%s: %r is a valid object (symmetric image of a delivered solution, accepted by the "
+                                 "validator) but the model without symmetry breaking does not deliver it (%d solutions)"
+                                 % (inst["name"], list(im[:49]), len(nos)), inst, 0)
+                            break
+                    else:
+                        continue
+                    break
+                cnt("symmetric_images_checked", checked)
             ref = inst.get("count_nosym")
             if ref == "schur":
                 ref = S.schur_count(int(inst["name"].split("-")[1]))
@@ -325,6 +353,57 @@ def run_shipped(task):
                 if len(nos) != ref:
                     fail("count_differs_from_reference", "%s without symmetry breaking: %d solutions, own enumeration "
                                                          "%d" % (inst["name"], len(nos), ref), inst, 0)
+        # completeness at definition level: a valid object (symmetric image of a delivered solution, accepted by the
+        # validator) presented ground must be accepted by the model without symmetry breaking (or the model itself when it
+        # has no such flag)
+        pim = inst.get("prefix_images") or inst.get("images")
+        if pim and full and inst["kind"] == "enum":
+            plain = inst.get("make_nosym") or (inst["make"] if inst.get("images_apply_to_model") else None)
+            srcs = sorted(full[0])[:3]
+            tried = 0
+            for sol in (srcs if plain else []):
+                for im in pim(sol):
+                    if tried >= 40:
+                        break
+                    progress.mark({"instance": inst["name"], "ground_acceptance": list(im[:60])})
+                    pb = plain()
+                    ok = True
+                    fixed = {}
+                    for vi, val in enumerate(im):
+                        d, o = pb.dom_indices_lst[vi], pb.dom_offsets_lst[vi]
+                        if fixed.setdefault(d, val - o) != val - o:
+                            ok = False
+                            break
+                    if not ok:
+                        cnt("ground_acceptance.image_not_representable")
+                        continue
+                    lo_hi_ok = all(pb.shr_domains_lst[d][0] <= x <= pb.shr_domains_lst[d][1] for d, x in fixed.items())
+                    for d, x in fixed.items():
+                        pb.shr_domains_lst[d] = [x, x]
+                    got, bad2 = solve_all(pb, inst["cfgs"][0], inst["validator"], 2)
+                    tried += 1
+                    res["evals"] += 1
+                    if bad2:
+                        fail("invalid_object", "%s with the first %d variables fixed: %s" % (inst["name"], len(im), bad2[1]),
+                             inst, 0)
+                    valid = bool(got) and not bad2
+                    if not got:
+                        # nothing delivered: a violation only if the image really is a valid object - decided by the
+                        # validator on a completion we can build ourselves (full images), else by the family's prefix rule
+                        if len(im) == len(sol) and inst["validator"](im) is None and lo_hi_ok:
+                            fail("valid_object_rejected", "%s: the valid object %r presented ground is rejected by the "
+                                 "model without symmetry breaking" % (inst["name"], list(im[:60])), inst, 0)
+                        elif len(im) < len(sol) and inst.get("prefix_valid") and inst["prefix_valid"](im) and lo_hi_ok:
+                            fail("valid_object_rejected", "%s: the valid object %r (first %d variables) presented ground is "
+                                 "rejected by the model without symmetry breaking" % (inst["name"], list(im[:60]), len(im)),
+                                 inst, 0)
+                        else:
+                            cnt("ground_acceptance.image_not_valid")
+                            continue
+                    cnt("ground_acceptance.objects_presented")
+                    if valid and tuple(got[0][:len(im)]) != tuple(im):
+                        fail("ground_object_changed", "%s: fixed %r, delivered %r" % (inst["name"], list(im[:40]),
+                                                                                      list(got[0][:40])), inst, 0)
     res["wall"] = time.time() - t0
     return res
 
